@@ -1,6 +1,6 @@
 """C02 — every operation completes exactly once, with its own result."""
 import gen_drv
-from p_drv import DrvProp, K, parse, steps_of, waker_counts
+from p_drv import DrvProp, K, parse, steps_of, fifo_violation, waker_counts
 
 
 def oracle(case, out):
@@ -21,6 +21,9 @@ def oracle(case, out):
                 return "final completion of operation %d not stored as its result (event %d)" % (key, idx)
             if nxt[2] != arg:
                 return "operation %d: stored result %d differs from the OS result %d" % (key, nxt[2], arg)
+    r = fifo_violation(case, out)
+    if r:
+        return r
     # the waiting task is woken: the waker registered LAST before the completion is invoked
     wc = waker_counts(out)
     if wc is not None:
